@@ -302,13 +302,18 @@ fn sim_check(id: &str, tier: &str, seed: u64, args: &[String]) -> i32 {
     if failure.is_none() {
         for k in &known {
             if let Some(rp) = &k.replay {
-                if let Ok((case, _)) = load_replay(rp) {
+                if let Ok((case, meta)) = load_replay(rp) {
                     let mut spec3 = spec_for(id).unwrap();
-                    spec3.options = spec_options | spec.repro_options.unwrap_or(0);
+                    // a saved reproduction runs with the options it was recorded with
+                    spec3.options = match meta["options"].as_u64() {
+                        Some(o) => o as u32,
+                        None => spec_options | spec.repro_options.unwrap_or(0),
+                    };
                     let o = default_eval(&spec3)(&case, false);
                     match judge(id, is_c20, &o, &known) {
-                        Verdict::Known(sig) if sig == k.signature => {
-                            *known_seen.entry(sig).or_insert(0) += 1;
+                        Verdict::Known(sig) if sig == k.signature || o.violations.iter().any(|v| format!("{}/{}", v.property, v.monitor) == k.signature) => {
+                            let _ = sig;
+                            *known_seen.entry(k.signature.clone()).or_insert(0) += 1;
                         }
                         Verdict::Fail(v, sig) => {
                             println!("replay of listed finding {} now fails differently: {}/{}: {}", k.id, v.property, v.monitor, v.detail);
